@@ -481,15 +481,36 @@ pub struct TypeEntry {
     pub slen: fn() -> Option<usize>,
 }
 
+/// optional memory probe (installed by the C13 module, which owns the counting global allocator):
+/// `start()` marks the baseline, `peak()` returns the peak number of bytes allocated above it since then
+pub struct MemProbe {
+    pub start: fn(),
+    pub peak: fn() -> usize,
+}
+pub static MEM_PROBE: OnceLock<MemProbe> = OnceLock::new();
+/// peak bytes of the most recent `T::decode` calls (max over the calls since it was last reset)
+pub static LAST_DECODE_PEAK: std::sync::atomic::AtomicUsize = std::sync::atomic::AtomicUsize::new(0);
+
 pub fn dec_impl<T: ValConv + BFieldCodec>(seq: &[BFieldElement]) -> DecOut {
-    let r = catch_unwind(AssertUnwindSafe(|| match T::decode(seq) {
-        Ok(b) => {
-            let re = b.encode();
-            DecOut::Ok(b.to_val(), re)
+    // only the call of `T::decode` itself is measured; conversion and re-encoding happen afterwards
+    if let Some(p) = MEM_PROBE.get() {
+        (p.start)();
+    }
+    let r = catch_unwind(AssertUnwindSafe(|| T::decode(seq)));
+    if let Some(p) = MEM_PROBE.get() {
+        LAST_DECODE_PEAK.fetch_max((p.peak)(), std::sync::atomic::Ordering::Relaxed);
+    }
+    match r {
+        Ok(Ok(b)) => {
+            let conv = catch_unwind(AssertUnwindSafe(|| (b.to_val(), b.encode())));
+            match conv {
+                Ok((v, re)) => DecOut::Ok(v, re),
+                Err(_) => DecOut::Panic,
+            }
         }
-        Err(_) => DecOut::Err,
-    }));
-    r.unwrap_or(DecOut::Panic)
+        Ok(Err(_)) => DecOut::Err,
+        Err(_) => DecOut::Panic,
+    }
 }
 pub fn enc_impl<T: ValConv + BFieldCodec>(v: &Val) -> Option<Option<EncOut>> {
     let t = T::from_val(v)?;
